@@ -6,7 +6,7 @@ ROOT = os.path.dirname(os.path.dirname(os.path.abspath(__file__)))
 
 # id -> (level, technique, level text, level note, design ref)
 CHECKS = {
- "C01": ("exploration", "runtime monitoring: reference-model monitor (Go slice) on every return value + independent structural walker after every operation + cold reopen from registers",
+ "C01": ("exploration", "runtime monitoring: reference-model monitor (Go slice) on every return value + independent structural walker after every operation + cold reopen from registers; deep-tree cases (depth >= 4, even/odd index-split parities), drains by single removals, small-scope exhaustive sequences",
          "Seeded hostile operation histories on the real library; every returned element/previous element/count/type/error is compared with an in-memory sequence after each operation, the slab tree is walked by an independent monitor, and the array is reopened by root id warm and from registers only. Held-on-what-was-observed, not a proof.",
          "Trusts the harness' model/walker, test_utils value types, the Go toolchain. Covers only generated histories and the slab sizes drawn.", "DESIGN.md §4 C01"),
  "C02": ("exploration", "runtime monitoring: reference-model monitor (Go map) on every return value + structural walker incl. digest-of-key filing check + cold reopen",
@@ -15,7 +15,7 @@ CHECKS = {
  "C03": ("exploration", "runtime monitoring: ledger-proxy monitor (no write outside commit, no zero-address write) + crash point after every operation + cold rebuild from registers vs model snapshot of the last commit",
          "The ledger is the harness' own recording BaseStorage; a crash is taken after every operation by comparing the register map byte-for-byte with the last commit and rebuilding every live root from a copy of the registers with a brand-new storage.",
          "A crash is modelled as abandoning the in-memory storage; ledger calls are atomic. Covers generated histories and commit placements.", "DESIGN.md §4 C03"),
- "C05": ("exploration", "runtime monitoring: independent structural invariant walker at quiescent points after every operation under a hostile size workload + exhaustive sweep of all 32513 slab-size settings",
+ "C05": ("exploration", "runtime monitoring: independent structural invariant walker at quiescent points after every operation under a hostile size workload (incl. deep-tree cases and directed collapse cases in which a Remove makes the tree grow while the root index slab is nearly full) + exhaustive sweep of all 32513 slab-size settings",
          "Independent walker over live slabs (size bands, element limits, header/child agreement, prefix sums, digests, sibling links, root fan-out) after every operation of hostile-size histories; the threshold arithmetic is checked for every legal slab size (exhaustive).",
          "Size constants restated in the harness are cross-checked against real encodings by C06. Histories are sampled.", "DESIGN.md §4 C05"),
  "C06": ("exploration", "runtime monitoring: byte-level monitor - every dirtied slab is encoded after every operation and the register is split with an independent CBOR decoder; equality with the reported size incl. the exact compact-map saving",
@@ -39,10 +39,10 @@ CHECKS = {
  "C12": ("exploration", "runtime monitoring: reference-model monitor under an adversarial 4-level digester (all 256 alphabet profiles) with an executable prediction of every collision-limit refusal + no-trace check via storage proxy",
          "All 4^4 per-level digest alphabets x limits; every insert of a new key is predicted by the limit rule and refusals must be typed fatal errors that leave no trace; dictionary semantics and group structure checked after every operation.",
          "Nested maps use the default digester; only 4-level digesters. Histories are sampled.", "DESIGN.md §4 C12"),
- "C13": ("exploration", "runtime monitoring: enumeration monitor - every iterator flavour compared element-by-element with the model's canonical order, mutation during mutable iteration, partial-load subsequence check and reverse pop on cold copies",
+ "C13": ("exploration", "runtime monitoring: enumeration monitor - every iterator flavour (callback functions and iterator objects incl. mixed Next/NextKey/NextValue and calls after the end, on roots and nested containers) compared element-by-element with the model's canonical order, mutation during mutable iteration, partial-load subsequence check and reverse pop on cold copies",
          "At checkpoints of seeded histories every enumeration flavour, all/boundary ranges, invalid ranges, in-iteration overwrite and child mutation, partial loads and reverse bulk pop are compared with the order computed from the model (digest vector, then insertion sequence).",
          "Insert/remove during mutable iteration is documented unsupported and not generated. States are sampled.", "DESIGN.md §4 C13"),
- "C14": ("fault_enumeration", "runtime monitoring with fault injection at the ledger proxy: every write/delete position of every commit failed in turn (both failure modes, retry now / later, pairs), compared with a fault-free twin",
+ "C14": ("fault_enumeration", "runtime monitoring with fault injection at the ledger proxy: every write/delete position of every commit failed in turn (both failure modes, retry now / later, pairs), compared with a fault-free twin; bounded-progress oracle (two-stage limit) for a faulted commit that never returns",
          "For each commit of each short history every single failing position is enumerated (and all pairs for small commits) for both commit flavours and 1/2/8 workers; after each failure: error class, applied-or-still-pending, read-your-writes, model equality; after retry byte-equality with the fault-free twin.",
          "numWorkers=0 outside the domain. Enumeration is complete per commit; histories are sampled.", "DESIGN.md §4 C14"),
  "C15": ("exploration", "runtime monitoring: online checker of a three-layer overlay specification after every storage call with unique-version slabs; thorough = closure over the abstract state space of the real object",
@@ -54,16 +54,16 @@ CHECKS = {
  "C18": ("fault_enumeration", "runtime monitoring: typed-error table + no-trace check via storage proxy + twin run without the rejected requests (register byte-equality) + enumeration of every callback/ledger-read failure position of cold lookups",
          "25% of steps are invalid requests; each must return the specific error and category, issue no store/remove/id allocation, keep ancestors valid, and commit the same registers as the twin history; every ledger read / comparator / hash-input call of probed lookups is failed in turn and must surface as external error.",
          "Enumeration complete over the call positions of the probed lookups; histories are sampled.", "DESIGN.md §4 C18"),
- "C20": ("fault_enumeration", "runtime monitoring: corruption enumeration - every slab x {delete referenced, add unreferenced, double reference, foreign owner} x {ledger level, storage API uncommitted/committed} against CheckStorageHealth; GetAllChildReferences vs independent walk",
+ "C20": ("fault_enumeration", "runtime monitoring: corruption enumeration - every slab x {delete referenced, add unreferenced, double reference, foreign owner} x {ledger level, storage API uncommitted/committed} against CheckStorageHealth; GetAllChildReferences vs independent walk; temporary-address roots",
          "For storages from valid histories the health check must accept (warm with pending writes, after commit, fresh+preloaded) and return the true roots, and must reject every enumerated single-slab corruption in every modality; the child-reference query is compared as multisets with an independent walk.",
          "Storages over 70 slabs are sampled keeping every reference kind; index->child references are not byte-patchable for the foreign-owner kind.", "DESIGN.md §4 C20"),
- "C04": ("exploration", "runtime monitoring: replica differential - the same history re-executed under varied worker counts, GOMAXPROCS, ledger-call jitter, object-pool state and in different OS processes; ordered commit write logs and registers compared; ascending-order monitor on every deterministic commit",
+ "C04": ("exploration", "runtime monitoring: replica differential - the same history re-executed under varied worker counts, GOMAXPROCS, ledger-call jitter, object-pool state and in different OS processes; ordered commit write logs and registers compared; ascending-order monitor on every deterministic commit; the other commit flavour on the same history (registers and per-commit write multisets equal); direct vs. LedgerBaseStorage access path",
          "Every history runs as 6-9 replicas across 2-3 worker processes; the sequence (deterministic commit) or multiset (relaxed commit) of ledger writes with content hashes, the final registers and map seeds must be identical; each deterministic commit log must be strictly ascending in (owner, index).",
          "Schedules, map iteration orders and processes are sampled by repetition, not enumerated.", "DESIGN.md §4 C04"),
- "C16": ("exploration", "sanitizer + differential twin: Go race detector build (every report is a violation) over parallel commit / preload / error-path scenarios with injected jitter inside caller callbacks, each compared with a sequential re-implementation; concurrent independent clients compared with their solo runs",
+ "C16": ("exploration", "sanitizer + differential twin: Go race detector build (every report is a violation) over parallel commit / preload / error-path scenarios with injected jitter inside caller callbacks, each compared with a sequential re-implementation; concurrent independent clients compared with their solo runs; bounded-progress oracle (two-stage limit) for faulted commits / preloads that never return",
          "Race-detector build; worker counts 1-64 x GOMAXPROCS 1-16 x jitter; registers, cache content and errors compared with a one-goroutine reference; G=2..32 goroutines with private storages must obtain exactly their solo transcripts and registers.",
          "The race detector only sees executed interleavings; interleavings are sampled.", "DESIGN.md §4 C16"),
- "C19": ("exploration", "hostile-input monitor: mutational corpus (valid v1 registers of every slab kind + version-0 twins) under structure-aware mutators; panic / allocation / canary oracle with the input written to disk before each call; process watchdog for hangs",
+ "C19": ("exploration", "hostile-input monitor: mutational corpus (valid v1 registers of every slab kind + version-0 twins) under structure-aware byte mutators, a CBOR item-tree mutator and a systematic single-field arithmetic pass over every fixed-width field; panic / allocation / canary oracle with the input written to disk before each call; process watchdog for hangs",
          "Millions of mutated registers are fed to DecodeSlab and the header queries; accepted slabs have their size and child-reference accessors walked; any panic, process death, disproportionate allocation or hang is a violation.",
          "All byte strings is a corpus; never-loops is a bounded-time observation. Uses the harness' hardened storable decoder (test_utils' decoder itself allocates unboundedly on a crafted level count).", "DESIGN.md §4 C19"),
 }
